@@ -169,7 +169,10 @@ theorem finalize_withLim_none {bf : Enf} {lim : Limits} (hw : within lim bf.fina
     (withLim bf lim).finalize.2 = none := by
   have hfst : (withLim bf lim).finalize.1 = bf.finalize.1 := by
     rw [C07.finalize_fst, C07.finalize_fst]; rfl
-  rw [C07.finalize_snd, hfst]
+  cases hpd : (withLim bf lim).perDocument with
+  | true => exact C07.finalize_snd_pd _ hpd
+  | false =>
+  rw [C07.finalize_snd _ hpd, hfst]
   have ha : bf.finalize.1.aliases ≤ USIZE_MAX := by
     rw [C07.within_iff] at hw
     omega
